@@ -155,10 +155,12 @@ theorem execS_len (op : SOp) (hc : op.core = true) (w : W) (hok : op.okFor w) :
         simp only [packMapLoop] at h
         split at h
         · split at h
-          · rw [ih _ _ _ _ h]
+          · cases h
           · split at h
-            · cases h
-            · rw [ih _ _ _ _ h]; simp [W.addRefs]
+            · rw [ih _ _ _ _ h]
+            · split at h
+              · cases h
+              · rw [ih _ _ _ _ h]; simp [W.addRefs]
         · cases h
     simp only [execS] at h
     cases hp : w.pop with
@@ -430,7 +432,11 @@ theorem execS_len (op : SOp) (hc : op.core = true) (w : W) (hok : op.okFor w) :
     | none => simp [hp] at h
     | some r =>
       obtain ⟨y, w1⟩ := r
-      simp only [hp, okW, W.alloc, W.setHeap, W.pushNoRef, W.addRefs, Option.some.injEq] at h
+      simp only [hp] at h
+      by_cases hkm : k = .map
+      · simp [hkm] at h
+      rw [if_neg hkm] at h
+      simp only [okW, W.alloc, W.setHeap, W.pushNoRef, W.addRefs, Option.some.injEq] at h
       have l1 := pop_len hp
       subst h; simp [Outcome.w, l1]
   | pack k m =>
@@ -440,6 +446,9 @@ theorem execS_len (op : SOp) (hc : op.core = true) (w : W) (hok : op.okFor w) :
     | some r =>
       obtain ⟨y, w1⟩ := r
       simp only [hp] at h
+      by_cases hkm : k = .map
+      · simp [hkm] at h
+      rw [if_neg hkm] at h
       have l1 := pop_len hp
       split at h <;> simp only [okW, W.alloc, W.setHeap, W.pushNoRef, W.addRefs, Option.some.injEq, reduceCtorEq] at h
       subst h; simp [Outcome.w, l1]
@@ -566,6 +575,9 @@ theorem execS_len (op : SOp) (hc : op.core = true) (w : W) (hok : op.okFor w) :
           | some r1 =>
             obtain ⟨key, w1⟩ := r1
             simp only [hp1] at h
+            by_cases hkc : key.cid.isSome = true
+            · simp [hkc] at h
+            rw [if_neg hkc] at h
             have l1 := pop_len hp1
             cases hp2 : w1.pop with
             | none => simp [hp2] at h
